@@ -26,6 +26,7 @@ structure FieldDecl (V : Type) where
   required : Bool := true           -- is_required(options)
   default : Option V := none        -- get_default(options, defer=False)
   disc : Bool := false              -- has a discriminator map
+  posOnly : Bool := false           -- field.positional_only (functions)
   hasDeps : Bool := false
 
 structure ParserDecl (V : Type) where
@@ -141,7 +142,9 @@ def dfItems (W : DataWorld V) (L : Legacy) (o : Opts) (P : ParserDecl V) (exclud
     List (Nat × V) → Acc V → M (Acc V)
   | [], a => pure a
   | (key, v) :: rest, a =>
-    match getField P key with
+    -- `if not field or field.positional_only:` (base.py:446): the name of a positional-only parameter is an
+    -- ordinary additional key
+    match (getField P key).filter (fun f => !f.posOnly) with
     | none => do
       let add ← parseAddition W o P key v
       dfItems W L o P excluded rest (match add with
@@ -288,7 +291,8 @@ structure FuncDecl (V : Type) where
   excludeIndexes : List Nat := []
   posVarIndex : Option Nat := none                 -- `*args` starts here
   posType : Option Ty := none                      -- annotation of `*args`
-  posOnly : List (FieldDecl V) := []               -- positional_only_fields
+  posOnly : List (Nat × FieldDecl V) := []         -- positional_only_fields: (index, field)
+  excludeDefault : Nat → Option V := fun _ => none -- declared default of the excluded (underscore) parameter at an index
   returnType : Option Ty := none
 
 /-- func.py:576-598 -/
@@ -324,21 +328,37 @@ def posArgs (W : DataWorld V) (L : Legacy) (o : Opts) (F : FuncDecl V) :
         if F.excludeIndexes.contains i then posArgs W L o F xs (i + 1) (args ++ [x]) keys
         else posArgs W L o F xs (i + 1) args keys
 
-/-- step 2: positional-only parameters that were not given, func.py:647-659 -/
-def posOnlyMissing (o : Opts) : List (FieldDecl V) → List V → List Nat → M (List V × List Nat)
+/-- omitted excluded (private) parameters in front of `index` take their own declared defaults, func.py:666-670 -/
+def fillExcluded (F : FuncDecl V) (index : Nat) : Nat → List V → List V
+  | 0, args => args
+  | fuel + 1, args =>
+    if args.length < index && F.excludeIndexes.contains args.length then
+      match F.excludeDefault args.length with
+      | none => args                                   -- `break`
+      | some d => fillExcluded F index fuel (args ++ [d])
+    else args
+
+/-- step 2: positional-only parameters that were not given, func.py:653-674 -/
+def posOnlyMissing (o : Opts) (F : FuncDecl V) : List (Nat × FieldDecl V) → List V → List Nat → M (List V × List Nat)
   | [], args, keys => pure (args, keys)
-  | f :: fs, args, keys =>
-    if keys.contains f.id then posOnlyMissing o fs args keys
+  | (index, f) :: fs, args, keys =>
+    if keys.contains f.id then posOnlyMissing o F fs args keys
     else if f.isRequired o then do
       handleError o (mk K.absence Site.posAbsence (some f.id))
-      posOnlyMissing o fs args keys
-    else posOnlyMissing o fs (match f.default with | some d => args ++ [d] | none => args) (keys ++ [f.id])
+      posOnlyMissing o F fs args keys
+    else
+      let args' := match f.default with
+        | some d =>
+          let a := fillExcluded F index index args
+          if a.length == index then a ++ [d] else a      -- the default lands in its own slot or nowhere
+        | none => args
+      posOnlyMissing o F fs args' (keys ++ [f.id])
 
 /-- func.py:604-665 -/
 def parseParams (W : DataWorld V) (L : Legacy) (o : Opts) (F : FuncDecl V) (args : List V)
     (kwargs : List (Nat × V)) : M (List V × List (Nat × V)) := do
   let (pa, keys) ← posArgs W L o F args 0 [] []
-  let (pa, keys) ← posOnlyMissing o F.posOnly pa keys
+  let (pa, keys) ← posOnlyMissing o F F.posOnly pa keys
   let kw ← parseData W L o F.parser keys kwargs
   raiseError
   pure (pa, kw)
